@@ -160,6 +160,27 @@ def install(ctx, repo, probes):
                 ctx.target("%s/%s/months-clamp" % (mode, rep))
             if mode == "gregorian" or rep == "week":
                 ctx.target("%s/%s/years-clamp" % (mode, rep))
+    ctx.target("duration/standardize")
+
+
+def _dur(ctx, repo, kw):
+    """the Duration the keywords spell: month and year counts are kept as
+    given (also under standardize=True, which only carries exact units), and
+    the exact part keeps its total"""
+    d = repo.dur(kw)
+    ctx.ev("ctor.check")
+    want = (kw.get("years", 0), kw.get("months", 0),
+            sum(F(kw.get(u, 0)) * k for u, k in (
+                ("weeks", 604800), ("days", 86400), ("hours", 3600),
+                ("minutes", 60), ("seconds", 1))))
+    got = tuple(R.dur_nominal(d)) + (R.dur_len(d),)
+    if got[:2] != want[:2] or abs(got[2] - want[2]) > F(1, 10 ** 6):
+        ctx.violation("ctor.fields", "Duration(**%r) carries (years, months, "
+                      "exact seconds) = %r, the keywords spell %r" % (
+                          kw, got, want), d=kw)
+    if kw.get("standardize"):
+        ctx.cls("duration/standardize")
+    return d
 
 
 def run_case(ctx, repo, case):
@@ -167,11 +188,11 @@ def run_case(ctx, repo, case):
     try:
         p = repo.tp(case["p"])
         if case["op"] == "add":
-            p + repo.dur(case["d"])
+            p + _dur(ctx, repo, case["d"])
         elif case["op"] == "radd":
-            repo.dur(case["d"]) + p
+            _dur(ctx, repo, case["d"]) + p
         elif case["op"] == "sub":
-            p - repo.dur(case["d"])
+            p - _dur(ctx, repo, case["d"])
         else:
             p.add_months(case["n"])
     finally:
@@ -303,6 +324,10 @@ def workload(ctx, repo):
         else:
             case = {"op": rng.choice(("add", "radd", "sub")), "mode": mode,
                     "p": p, "d": gen.rand_nominal_dur(rng)}
+            if k % 9 == 1:
+                case["d"] = dict(case["d"], standardize=True)
+                if k % 18 == 1:
+                    case["d"]["months"] = rng.choice((12, 14, -13, 25, 36))
         ctx.case = case
         if k % 501 == 0:
             ctx.sample(case)
